@@ -409,3 +409,312 @@ def c07(case, F):
         if F.worker_exit_path(pid) == "died":
             v.append((_sig(case, F, "unexpected_death"), "internal: death without fault"))
     return v
+
+
+# ------------------------------------------------------------------ C06
+def _tree_children(F):
+    kids = {}
+    for pid, p in F.procs.items():
+        kids.setdefault(p.get("ppid"), set()).add(pid)
+    for e in F.h.by("subprocess_spawned"):
+        kids.setdefault(e["pid"], set()).add(e["spid"])
+    return kids
+
+
+def _descendants(kids, roots):
+    out = set()
+    todo = list(roots)
+    while todo:
+        p = todo.pop()
+        for c in kids.get(p, ()):
+            if c not in out:
+                out.add(c)
+                todo.append(c)
+    return out
+
+
+def c06(case, F):
+    v = []
+    if F.outcome not in ("ended", "survivors") or driver_ended_by_plan(case, F):
+        return v
+    forced = [o for o in F.ops.values() if o["call"] and o["call"]["a"].get("forced")]
+    if not forced or forced[0]["end"] is None:
+        return v
+    call, end = forced[0]["call"], forced[0]["end"]
+    if end["k"] != "ret":
+        v.append((_sig(case, F, "forced_shutdown_raised", etype=end["exc"]["type"]), witness_text(case, F, "the forced shutdown call raised %s: %s" % (end["exc"]["type"], end["exc"]["str"][:300]))))
+        return v
+    # promptness, logically: no endless task ever completed
+    for tid, t in F.tasks.items():
+        for s in t["starts"]:
+            if s.get("kind") == "endless":
+                for e in t["ends"]:
+                    v.append((_sig(case, F, "waited_for_running_task"), witness_text(case, F, "endless task %s completed: the forced shutdown waited for it" % tid)))
+    cancelled_true = set()
+    for o in F.ops.values():
+        c, e = o["call"], o["end"]
+        if c and c["op"] == "cancel" and e and e["k"] == "ret" and e["r"].get("cancelled"):
+            cancelled_true.add(c["a"]["fut"])
+    for name, f in F.handed_out().items():
+        d = f["done"]
+        if d is None:
+            v.append((_sig(case, F, "unfinished_future_pending"), witness_text(case, F, "future %s still pending after the forced shutdown" % name)))
+            continue
+        if d["state"] == "cancelled":
+            if name not in cancelled_true:
+                v.append((_sig(case, F, "cancelled_without_cancel"), witness_text(case, F, "future %s ended cancelled although no cancel() succeeded" % name)))
+            continue
+        tid = f["submit"]["tid"]
+        finished = bool(F.tasks.get(tid, {}).get("ends"))
+        if d["state"] == "result":
+            if not finished or not _fut_expected_ok(f):
+                v.append((_sig(case, F, "fabricated_or_wrong_value"), witness_text(case, F, "future %s: value %r (finished=%s)" % (name, d.get("value"), finished))))
+            continue
+        e = d["exc"]
+        if e["type"] == "ShutdownExecutorError":
+            if name in cancelled_true:
+                v.append((_sig(case, F, "cancelled_future_failed"), witness_text(case, F, "future %s: cancel() returned True but it failed with ShutdownExecutorError" % name)))
+            continue
+        if finished and _fut_expected_ok(f):
+            continue
+        v.append((_sig(case, F, "unfinished_future_wrong_error", etype=e["type"]), witness_text(case, F, "unfinished future %s failed with %s instead of ShutdownExecutorError: %s" % (name, e["type"], e["str"][:200]))))
+    # totality: workers reaped, descendants dead, right after the call returned
+    r = end["r"]
+    ns = r.get("ns") or (r.get("replaced") or {}).get("ns") or []
+    state = {p: st for p, st, _pp in ns}
+    t_ret = end["t"]
+    workers0 = {pid for pid, p in F.procs.items() if p.get("role") == "worker" and p.get("ppid") == F.driver_pid and p["t"] < call["t"]}
+    kids = _tree_children(F)
+    desc = {d for d in _descendants(kids, workers0) if (d in F.procs and F.procs[d]["t"] < t_ret) or d not in F.procs}
+    for w in sorted(workers0):
+        if w in state:
+            v.append((_sig(case, F, "worker_not_reaped", state=state[w]), witness_text(case, F, "worker pid %d still present (state %s) when the forced shutdown returned" % (w, state[w]))))
+    # descendants are not loky's children: SIGKILL delivery is asynchronous, so they are
+    # looked for in the snapshot taken after a bounded settle (<= 3 s) following the call
+    late = [o["end"] for o in F.ops.values() if o["call"] and o["call"]["op"] == "ns" and o["end"] is not None and o["end"]["k"] == "ret" and o["end"]["t"] >= t_ret]
+    state2 = {p: st for p, st, _pp in (late[0]["r"]["ns"] if late else [])}
+    for d in sorted(desc):
+        if late and d in state2 and state2[d] != "Z":
+            state[d] = state2[d]
+        else:
+            continue
+        if d in state and state[d] != "Z":
+            v.append((_sig(case, F, "descendant_alive", role=(F.procs.get(d) or {}).get("role", "subprocess")), witness_text(case, F, "descendant pid %d (%s) of a worker still alive (state %s) when the forced shutdown returned" % (d, (F.procs.get(d) or {}).get("argv", "subprocess"), state[d]))))
+    surv = {p["pid"] for p in (F.final.get("survivors") or [])}
+    left = sorted((workers0 | desc) & surv)
+    if left:
+        v.append((_sig(case, F, "tree_survives"), witness_text(case, F, "pids %s of the killed executor's tree still alive after the driver exited" % left)))
+    return v
+
+
+# ------------------------------------------------------------------ C08
+def _mw_timeline(F):
+    tl = []
+    for o in F.ops.values():
+        c, e = o["call"], o["end"]
+        if c is None or c["op"] not in ("new", "get_reusable"):
+            continue
+        mw = (c["a"].get("kw") or {}).get("max_workers")
+        if mw is None:
+            continue
+        tl.append((c["t"], e["t"] if e is not None else float("inf"), mw))
+    return sorted(tl)
+
+
+def _bound_at(tl, t):
+    cands = [mw for (a, b, mw) in tl if a <= t <= b]
+    done = [(b, mw) for (a, b, mw) in tl if b <= t]
+    if done:
+        cands.append(max(done)[1])
+    return max(cands) if cands else None
+
+
+def c08(case, F):
+    v = []
+    if F.outcome not in ("ended", "survivors") or _has_deaths(F):
+        return v
+    tl = _mw_timeline(F)
+    # upper bound on concurrently executing bodies
+    evs = []
+    for tid, t in F.tasks.items():
+        if "/" in tid:
+            continue  # nested sub-tasks belong to another executor
+        for s in t["starts"]:
+            evs.append((s["t"], 1, tid))
+        for e in t["ends"]:
+            evs.append((e["t"], -1, tid))
+    evs.sort()
+    cur = 0
+    for t, d, tid in evs:
+        cur += d
+        b = _bound_at(tl, t)
+        if d > 0 and b is not None and cur > b:
+            v.append((_sig(case, F, "too_many_concurrent_tasks"), witness_text(case, F, "%d task bodies executing at once at t=%.3f, max_workers in force is %d" % (cur, t, b))))
+            break
+    for inv in F.invs:
+        if inv.get("name") != "nproc":
+            continue
+        b = _bound_at(tl, inv["t"])
+        n = (inv.get("v") or {}).get("n")
+        if b is not None and n is not None and n > b:
+            v.append((_sig(case, F, "too_many_workers_registered", at="%s:%s" % (inv["pt"][0], inv["pt"][1])), witness_text(case, F, "%d workers registered at %s (t=%.3f) while max_workers in force is %d" % (n, inv["pt"], inv["t"], b))))
+            break
+    # delivery: every rendezvous batch met
+    for name, f in F.handed_out().items():
+        if f["submit"]["spec"].get("k") != "rendezvous":
+            continue
+        d = f["done"]
+        if d is None:
+            continue
+        if d["state"] != "result":
+            v.append((_sig(case, F, "rendezvous_task_failed", etype=(d.get("exc") or {}).get("type")), witness_text(case, F, "rendezvous task %s did not complete: %s" % (name, json.dumps(d)[:300]))))
+        elif not d["value"][2]:
+            spec = f["submit"]["spec"]
+            v.append((_sig(case, F, "parallelism_not_delivered"), witness_text(case, F, "on a quiet executor with %d rendezvous tasks pending only %d ever ran simultaneously within %.0f s (max_workers=%d)" % (spec["n"], d["value"][3], spec.get("patience", 20), spec["n"]))))
+            break
+    return v
+
+
+# ------------------------------------------------------------------ C09
+def _norm_kw(kw):
+    kw = kw or {}
+    return {
+        "context": kw.get("context"),
+        "timeout": kw.get("timeout", 10),
+        "initializer": json.dumps(kw.get("initializer"), sort_keys=True),
+        "env": json.dumps(kw.get("env"), sort_keys=True),
+    }
+
+
+def c09(case, F):
+    v = []
+    if F.outcome not in ("ended", "survivors"):
+        return v
+    single = len(case["program"].get("threads", [])) == 1
+    ops = sorted((o for o in F.ops.values() if o["call"] and o["call"]["op"] == "get_reusable" and o["end"] is not None), key=lambda o: o["call"]["t"])
+    prev_kw = None
+    max_id = -1
+    for o in ops:
+        c, e = o["call"], o["end"]
+        kw = c["a"].get("kw") or {}
+        if e["k"] != "ret":
+            v.append((_sig(case, F, "factory_raised", etype=e["exc"]["type"]), witness_text(case, F, "get_reusable_executor(%s) raised %s: %s" % (json.dumps(kw), e["exc"]["type"], e["exc"]["str"][:300]))))
+            prev_kw = None
+            continue
+        r = e["r"]
+        before, after = r.get("before"), r.get("after")
+        if after is None or after.get("snap_err"):
+            continue
+        if single:
+            if after.get("max_workers") != kw.get("max_workers"):
+                v.append((_sig(case, F, "wrong_max_workers"), witness_text(case, F, "returned executor has _max_workers=%s, requested %s" % (after.get("max_workers"), kw.get("max_workers")))))
+            if r["same"] and before and (before.get("broken") is not None or before.get("shutdown")):
+                v.append((_sig(case, F, "returned_unhealthy_instance", broken=before.get("broken"), shutdown=before.get("shutdown")), witness_text(case, F, "the factory returned the previous instance although it was broken=%s shutdown=%s when the call began" % (before.get("broken"), before.get("shutdown")))))
+            if before is not None and prev_kw is not None and not _has_inflight_death(F, c["t"], e["t"]):
+                healthy = before.get("broken") is None and not before.get("shutdown")
+                reuse = kw.get("reuse", "auto")
+                want_same = healthy and (reuse is True or (reuse == "auto" and _norm_kw(kw) == prev_kw))
+                if want_same != r["same"]:
+                    v.append((_sig(case, F, "identity_mismatch", want_same=want_same), witness_text(case, F, "reference model: same instance=%s (healthy=%s, reuse=%r, args unchanged=%s) but the factory returned %s" % (want_same, healthy, reuse, _norm_kw(kw) == prev_kw, "the same" if r["same"] else "a new one"))))
+            if not r["same"]:
+                eid = after.get("executor_id")
+                if eid is not None and eid <= max_id:
+                    v.append((_sig(case, F, "executor_id_not_increasing"), witness_text(case, F, "fresh instance has executor_id %s <= an earlier id %s" % (eid, max_id))))
+                if after.get("timeout") != kw.get("timeout", 10):
+                    v.append((_sig(case, F, "fresh_instance_wrong_args"), witness_text(case, F, "fresh instance built with timeout=%s, call asked %s" % (after.get("timeout"), kw.get("timeout", 10)))))
+                rep = r.get("replaced")
+                if rep and (rep.get("pids_alive") or rep.get("mgr_alive")):
+                    v.append((_sig(case, F, "replaced_instance_still_alive", prior_nowait=history_features(case, F)["shutdown_nowait"]), witness_text(case, F, "the replaced instance was not completely shut down when the factory returned: workers alive %s, manager thread alive %s" % (rep.get("pids_alive"), rep.get("mgr_alive")))))
+            if after.get("executor_id") is not None:
+                max_id = max(max_id, after["executor_id"])
+        if after.get("broken") is not None and not _has_inflight_death(F, c["t"] - 0.5, e["t"] + 0.01) and single:
+            v.append((_sig(case, F, "returned_broken"), witness_text(case, F, "returned executor is flagged broken (%s) at return" % after.get("broken"))))
+        if after.get("shutdown") and single:
+            v.append((_sig(case, F, "returned_shut_down"), witness_text(case, F, "returned executor is flagged shut down at return")))
+        prev_kw = _norm_kw(kw) if not r["same"] or prev_kw is None else prev_kw
+    # initializer / env of a fresh instance, seen by its probe task
+    if single:
+        last_kw = None
+        timeline = sorted([(o["call"]["t"], "f", o) for o in ops] + [(f["submit"]["t"], "p", f) for f in F.handed_out().values() if f["submit"]["spec"].get("k") == "probe"], key=lambda x: x[0])
+        eff = None
+        for t, kind, x in timeline:
+            if kind == "f":
+                e = x["end"]
+                if e["k"] == "ret" and not e["r"]["same"]:
+                    eff = x["call"]["a"].get("kw") or {}
+                elif e["k"] != "ret":
+                    eff = None
+            elif eff is not None and x["done"] is not None and x["done"]["state"] == "result":
+                obs = x["done"]["value"][2]
+                want_tok = (eff.get("initializer") or {}).get("token")
+                if obs.get("init") != want_tok:
+                    v.append((_sig(case, F, "fresh_instance_wrong_initializer"), witness_text(case, F, "worker of the fresh instance saw init token %r, the call's initializer token is %r" % (obs.get("init"), want_tok))))
+                # env= is documented to work with the 'loky' context only
+                for k, val in ((eff.get("env") or {}) if eff.get("context") in (None, "loky") else {}).items():
+                    if (obs.get("env") or {}).get(k) != val:
+                        v.append((_sig(case, F, "fresh_instance_wrong_env"), witness_text(case, F, "worker env %s=%r, call asked %r" % (k, (obs.get("env") or {}).get(k), val))))
+    # every caller's tasks complete with reference results (unless it killed the pool itself)
+    deaths = _has_deaths(F)
+    killed = any((o["call"]["a"].get("kw") or {}).get("kill_workers") for o in ops)
+    for name, f in F.handed_out().items():
+        d = f["done"]
+        if d is None or deaths or killed:
+            continue
+        if f["submit"]["spec"].get("k") in ("ok", "sleep") and not _fut_expected_ok(f):
+            v.append((_sig(case, F, "caller_task_failed", etype=(d.get("exc") or {}).get("type")), witness_text(case, F, "task %s of a caller did not complete with its result: %s" % (name, json.dumps(d)[:300]))))
+    return v
+
+
+def _has_inflight_death(F, t0, t1):
+    for d in worker_deaths(F):
+        if t0 - 1.0 <= d["t"] <= t1:
+            return True
+    return False
+
+
+# ------------------------------------------------------------------ C10
+def c10(case, F):
+    v = []
+    if F.outcome not in ("ended", "survivors"):
+        return v
+    ops = sorted((o for o in F.ops.values() if o["call"] and o["call"]["op"] == "get_reusable" and o["end"] is not None and o["end"]["k"] == "ret"), key=lambda o: o["call"]["t"])
+    deaths = worker_deaths(F)
+    for o in ops:
+        c, e = o["call"], o["end"]
+        r = e["r"]
+        if not r.get("same"):
+            continue
+        before, after = r["before"], r["after"]
+        if not before or not after or before.get("snap_err") or after.get("snap_err"):
+            continue
+        new = (c["a"].get("kw") or {}).get("max_workers")
+        if new is None or before.get("max_workers") == new:
+            continue
+        if after.get("max_workers") != new:
+            v.append((_sig(case, F, "max_workers_not_updated"), witness_text(case, F, "after the resize _max_workers=%s, requested %s" % (after.get("max_workers"), new))))
+        # premise of the worker-count / survivor clause, evaluated on the history
+        if not before.get("mgr_started"):
+            continue
+        t0, t1 = c["t"], e["t"]
+        timed_out = any(m["name"] in ("timeout_branch", "memleak_branch") and t0 - 2.0 <= m["t"] <= t1 + 0.05 for ms in F.wmarks.values() for m in ms)
+        died = any(t0 - 2.0 <= d["t"] <= t1 + 0.05 for d in deaths) or after.get("broken") is not None or before.get("broken") is not None
+        finite = before.get("timeout") is not None and before["timeout"] < 50
+        if timed_out or died:
+            continue
+        if finite and (t1 - t0) > 0.5 * before["timeout"]:
+            continue  # a worker's timer may have fired inside the window without a mark yet
+        old_alive = set(before.get("alive") or [])
+        if len(after.get("pids") or []) != new:
+            v.append((_sig(case, F, "wrong_worker_count", finite_timeout=finite), witness_text(case, F, "resize %s -> %s returned with %d registered workers (no time-out or death during the call)" % (len(old_alive), new, len(after.get("pids") or [])))))
+        if set(after.get("alive") or []) != set(after.get("pids") or []):
+            v.append((_sig(case, F, "dead_worker_registered", finite_timeout=finite), witness_text(case, F, "resize returned with registered workers %s of which only %s are alive" % (after.get("pids"), after.get("alive")))))
+        kept = old_alive & set(after.get("pids") or [])
+        if len(kept) < min(len(old_alive), new):
+            v.append((_sig(case, F, "survivors_restarted", finite_timeout=finite), witness_text(case, F, "resize %d -> %d kept only %d of the previous workers (%s -> %s), expected %d" % (len(old_alive), new, len(kept), sorted(old_alive), after.get("pids"), min(len(old_alive), new)))))
+    # work submitted before any resize completes with its own result
+    if not deaths:
+        for name, f in F.handed_out().items():
+            d = f["done"]
+            if d is not None and f["submit"]["spec"].get("k") in ("ok", "sleep") and not _fut_expected_ok(f):
+                v.append((_sig(case, F, "task_lost_by_resize", etype=(d.get("exc") or {}).get("type")), witness_text(case, F, "task %s did not complete with its own result across a resize: %s" % (name, json.dumps(d)[:300]))))
+    return v
